@@ -16,7 +16,7 @@ THEOREMS = ["C17_at_most_once", "C17_pairing", "C17_serials", "C17_serial_sequen
             "C17_cancel_silent_partial", "C17_cancel_silent_refuted", "C17_fault_only_null_link", "C17_no_fault_partial", "C17_no_fault_refuted",
             "C17_close_completes_refuted", "C17_queued_reply_completes_once", "C17_timeout_completes_once", "C17_block_completes_once",
             "C17_elapsed_bounds", "C17_give_up_complete", "C17_give_up_sound_partial", "C17_give_up_exact",
-            "C17_timeout_not_early_refuted_rounding", "C17_timeout_not_early_refuted_backwards", "C17_no_early_timeout",
+            "C17_timeout_not_early_refuted_rounding", "C17_clock_backward_branch", "C17_monotonic_never_backward", "C17_no_early_timeout",
             "C17_timed_block_is_run", "C17_timed_block_at_most_once", "C17_timeout_lifecycle"]
 
 MAXCALLS = 6
@@ -131,8 +131,8 @@ def norm_clock(us):
 
 def gen_bt(rnd, count):
     """dbus_pending_call_block under a scripted clock (BT): readings around every boundary of the elapsed-time arithmetic
-    (elapsed = timeout - 1 / timeout, microsecond borrow with and without a remainder, same reading twice, clock stepping
-    backwards inside a second and across seconds), default / zero / one-millisecond / absent timeouts, replies and unrelated
+    (elapsed = timeout - 1 / timeout, microsecond borrow with and without a remainder, same reading twice; random scripts are
+    monotone, a few fixed ones step backwards to drive the "clock set backward" branch of the code), default / zero / one-millisecond / absent timeouts, replies and unrelated
     traffic arriving in any round, poll timing out, peer or local close before the wait."""
     out = []
     fixed = [
@@ -170,8 +170,8 @@ def gen_bt(rnd, count):
         for _ in range(rnd.randint(1, 5)):
             base_ms = ms if ms is not None else 1000
             d = rnd.choice((0, 1, 999, 1000, 1001, base_ms * 1000 - 1001, base_ms * 1000 - 1000, base_ms * 1000 - 1, base_ms * 1000, base_ms * 1000 + 1,
-                            base_ms * 500, -1, -1000, -1000000, 3000000))
-            t = max(0, clocks[0] + d) if rnd.random() < 0.6 else max(0, t + d)
+                            base_ms * 500, 3000000))
+            t = max(t, clocks[0] + d) if rnd.random() < 0.6 else t + d          # CLOCK_MONOTONIC never goes down
             clocks.append(t)
         arr = []
         for _ in range(rnd.randint(0, 3)):
@@ -276,7 +276,10 @@ def oracle(events, line):
     for idx, (ev, (obs, st, disc)) in enumerate(zip(events, segs)):
         f = ev.split(",")
         for o in obs:
-            if o.startswith("!"):
+            if o.startswith("!walltime"):
+                bad.append(("violation", "the blocking wait at event %d read the wall clock (gettimeofday) instead of CLOCK_MONOTONIC: "
+                            "a step of the system time would end or prolong the wait (regression of fix 09f2f87)" % idx))
+            elif o.startswith("!"):
                 bad.append(("violation", "harness flagged %s at event %d" % (o, idx)))
         if f[0] == "S":
             o = [x for x in obs if x.startswith("s")]
@@ -316,7 +319,10 @@ def oracle(events, line):
                 ms = {"-1": 25000, "inf": None}.get(f[2], None)
                 if f[2] not in ("-1", "inf"):
                     ms = int(f[2])
-                calls[bi]["bt_expired"] = ms is not None and any(r - rd[0] >= ms * 1000 for r in rd[1:])
+                # a script whose readings go down is not a reachable input (CLOCK_MONOTONIC); it only exercises the
+                # "clock set backward" branch of the code, and is not judged
+                mono = all(a <= b for a, b in zip(rd, rd[1:]))
+                calls[bi]["bt_expired"] = (not mono) or (ms is not None and any(r - rd[0] >= ms * 1000 for r in rd[1:]))
                 calls[bi]["bt"] = True
             if peer_open and connected and spec != "x":
                 hit = False
@@ -429,12 +435,10 @@ CRASH_SIG = re.compile(r"dbus-pending-call\.c:\d+:\d+: runtime error: member acc
 
 
 def load_known():
+    """known findings come from known-findings.json only; F17.4a may still be filed under its old id F17.4"""
     known = {k["id"]: k for k in vlib.load_known("C17")}
-    p = os.path.join(vlib.VERIF, "notes", "C17.findings.json")
-    if os.path.exists(p):          # entries proposed by this package, until the coordinator merges them
-        for k in json.load(open(p)):
-            if k.get("property") == "C17" and k.get("status") == "known":
-                known.setdefault(k["id"], k)
+    if "F17.4a" not in known and "F17.4" in known:
+        known["F17.4a"] = known["F17.4"]
     return known
 
 
@@ -547,7 +551,7 @@ def run(ctx):
                               {"events": " ".join(ev), "impl": i, "model": m, "names": "correspondence pending_h vs PendingCall.Pending.step1"}, found_input=False)
             continue
         for cls, text in found:
-            fid = {"strand": "F17.1", "cancel-block": "F17.2", "early-timeout": "F17.4"}.get(cls)
+            fid = {"strand": "F17.1", "cancel-block": "F17.2", "early-timeout": "F17.4a"}.get(cls)
             if fid and fid in known:
                 rep.known(known[fid], " ".join(ev))
             else:
